@@ -360,9 +360,15 @@ def generate(rng, tier):
 def gen_reentrant(rng, big, P):
     cs = []
 
-    def anchor(a, b):
+    def anchor(a, b, method, im, exact_var=True):
+        """the point x0 from which the inner integral runs: inside, outside, or (where the outer rule evaluates exactly there, so that the
+        inner limits are equal) at an end or the middle of the outer interval; inner intervals a few ulps wide are left to the near-equal-limits cases"""
         lo, hi = min(a, b), max(a, b)
-        return rng.choice([lo, hi, 0.5 * (lo + hi), rng.uniform(lo, hi), lo - rng.uniform(0.05, 0.4), hi + rng.uniform(0.05, 0.4)])
+        ch = [rng.uniform(lo, hi), lo - rng.uniform(0.05, 0.4), hi + rng.uniform(0.05, 0.4)]
+        if exact_var and "Tanh-Sinh" not in (method, im):
+            ch += [lo, hi]
+            if method != "Trapezoidal": ch.append(0.5 * (lo + hi))
+        return rng.choice(ch)
 
     def fac_for(method, a, b):
         return rand_fac(rng, a, b, positive=(method == "Adaptive-Simpson"), affine=(method == "Trapezoidal" and rng.random() < 0.5))
@@ -374,7 +380,7 @@ def gen_reentrant(rng, big, P):
                 for _ in range(20):
                     a, b = limits(rng, rng.randrange(3), rng.random() < 0.6)
                     if rng.random() < 0.3: a, b = a - 3.0, b - 3.0
-                    f = fac_for(method, a, b); x0 = anchor(a, b)
+                    f = fac_for(method, a, b); x0 = anchor(a, b, method, im)
                     _, onesign = f.dl1(min(x0, a, b), max(x0, a, b), want_sign=True)
                     if im != "Adaptive-Simpson" or onesign: break
                 else: continue
@@ -387,11 +393,11 @@ def gen_reentrant(rng, big, P):
         for orient in (True, False):
             a, b = limits(rng, rng.randrange(3), orient)
             if rng.random() < 0.3: a, b = a - 3.0, b - 3.0
-            f = rand_fac(rng, a, b); re = (0, anchor(a, b), "Gauss-Legendre_2", ip)
+            f = rand_fac(rng, a, b); re = (0, anchor(a, b, "Gauss-Legendre_2", "Gauss-Legendre_2"), "Gauss-Legendre_2", ip)
             cs.append(Case(f"named1d Gauss-Legendre_2 {p} {hx(a)} {hx(b)} {product_text([f], 'x', re)} # 1d@ {re_ann(re)} {f.ann()}", ("named1d", "reentrant", "Gauss-Legendre_2", "inner-Gauss-Legendre_2", "points-differ")))
     for p, ip in [(0, 8), (8, 0), (2, 15)]:
         a, b = limits(rng, rng.randrange(3), rng.random() < 0.5)
-        f = rand_fac(rng, a, b); re = (0, anchor(a, b), "Gauss-Kronrod", ip)
+        f = rand_fac(rng, a, b); re = (0, anchor(a, b, "Gauss-Kronrod", "Gauss-Kronrod"), "Gauss-Kronrod", ip)
         cs.append(Case(f"named1d Gauss-Kronrod {p} {hx(a)} {hx(b)} {product_text([f], 'x', re)} # 1d@ {re_ann(re)} {f.ann()}", ("named1d", "reentrant", "Gauss-Kronrod", "inner-Gauss-Kronrod", "points-differ")))
     # 2-D / 3-D: one factor (any position) written through an integral
     for rep in range(4 if big else 1):
@@ -401,9 +407,13 @@ def gen_reentrant(rng, big, P):
                 for _ in range(2 if dd == 2 else 1):
                     lims = [limits(rng, k, rng.random() < 0.6) for k in range(dd)]
                     facs = [fac_for(method, *lims[k]) if method != "Trapezoidal" else rand_fac(rng, *lims[k], affine=True) for k in range(dd)]
-                    k = rng.randrange(dd); x0 = anchor(*lims[k])
+                    k = rng.randrange(dd); x0 = anchor(*lims[k], method, "Tanh-Sinh")
                     im, ip = pick_inner(rng, facs[k], x0, *lims[k], cheap=(dd == 3))
                     if method == "Gauss-Legendre_2" and rng.random() < 0.7: im, ip = "Gauss-Legendre_2", rng.choice([20, 24, 31, 40])
+                    if im != "Tanh-Sinh" and method != "Tanh-Sinh" and rng.random() < 0.4:
+                        lo_, hi_ = min(lims[k]), max(lims[k])
+                        x1 = rng.choice([lo_, hi_] + ([0.5 * (lo_ + hi_)] if method != "Trapezoidal" else []))
+                        if im != "Adaptive-Simpson" or facs[k].dl1(min(x1, lo_), max(x1, hi_), want_sign=True)[1]: x0 = x1
                     p = P(method, rng.random() < 0.5)
                     if method == "Gauss-Legendre_2" and p > 31 and dd == 3: p = 24
                     re = (k, x0, im, ip)
@@ -420,8 +430,7 @@ def gen_reentrant(rng, big, P):
             if rng.random() < 0.5: c1, c2 = c2, c1
             if rng.random() < 0.5: f1, f2 = f2, f1
             g = rng.choice([Fac("expdec", rng.uniform(0.3, 1.5)), Fac("rational", rng.uniform(0.1, 2.0)), Fac("gauss", rng.uniform(0.5, 3.0), 0.0)])
-            x0 = anchor(r1, r2)
-            if x0 < 0.0: x0 = 0.0
+            x0 = max(anchor(r1, r2, method, "Tanh-Sinh", exact_var=False), 0.0)
             im, ip = pick_inner(rng, g, x0, r1, r2, cheap=True)
             if method == "Gauss-Legendre_2": im, ip = "Gauss-Legendre_2", rng.choice([20, 40])
             p = P(method, rng.random() < 0.5)
